@@ -267,6 +267,8 @@ def run(ctx):
                 and r_["k"] == "MethodCall" and r_["method"] == "is_empty" and field_path(r_["recv"]) == ("prefix",) \
                 and any(n_.get("k") == "Ret" for n_ in hir.walk(ifs[0]["then"]))
     ctx.ob("A-ATOM-LEX", "segment_atom: rejected iff name and prefix are both empty", oke, "expected `if content_start >= right_border && prefix.is_empty() { return err }`")
+    import tables as _t3
+    _t3.rule_T_SPACE(ctx, _t3.Tables(ctx), models=("lex",))
     ctx.undecided = ["structural equality of the re-parsed tree for all vocabulary-consistent values (nesting- and value-dependent)"]
     ctx.assumptions = ["nar_dev_utils join helpers and dictionaries behave as summarised (source hash asserted)"]
     ctx.trusted = ["rustc HIR/MIR", "mirfacts driver", "pinned nar_dev_utils 0.42.3 source", "python rule layer"]
